@@ -54,7 +54,9 @@ func Predict(op *Op) *Expected {
 		ex.InitErr = &t
 		return ex
 	case "panic":
-		t := ExpTurn{Kind: "error", ErrType: "RuntimeError", ErrMsg: "handler panicked: " + hx.PanicText(s.Panic, s.Nonce)}
+		// the envelope's wording around a panic is the framework's; only the
+		// panic value's text is predicted (as a substring)
+		t := ExpTurn{Kind: "error", ErrType: "RuntimeError", ErrAny: true, ErrMsg: hx.PanicText(s.Panic, s.Nonce)}
 		t.Logs = hx.VisibleLogs(s.Logs, lvl)
 		ex.InitErr = &t
 		return ex
@@ -125,7 +127,7 @@ func Predict(op *Op) *Expected {
 			ex.Turns = append(ex.Turns, errTurn(st.Err))
 			return ex
 		case "panic":
-			ex.Turns = append(ex.Turns, ExpTurn{Kind: "error", ErrType: "RuntimeError", ErrMsg: hx.PanicText(st.Panic, s.Nonce)})
+			ex.Turns = append(ex.Turns, ExpTurn{Kind: "error", ErrType: "RuntimeError", ErrAny: true, ErrMsg: hx.PanicText(st.Panic, s.Nonce)})
 			return ex
 		case "noemit", "double":
 			ex.Turns = append(ex.Turns, ExpTurn{Kind: "error", ErrType: "RuntimeError", ErrAny: true})
